@@ -169,6 +169,25 @@ def run_case(spec):
             x, y, z = np.argwhere(bad)[0]
             viol.append(V(site, 'triangle', '%s: d(%d,%d)=%r > d(%d,%d)+d(%d,%d)=%r' % (vname, x, z, M[x, z], x, y, y, z,
                                                                                        M[x, y] + M[y, z]), tr, view=vname))
+    # single-precision query points whose coordinates are ~2^63 (their squares fit in float32, the squares of embedded
+    # differences need not): the reported distance must still be finite and correct - the arithmetic is double precision
+    d_ = ds.d
+    base32 = np.array([np.zeros(d_), np.arange(1, d_ + 1), np.arange(d_, 0, -1) * 3, -np.ones(d_) * 7]) * 2.0 ** 62
+    p32 = np.array([[base32[i], base32[j]] for i in range(4) for j in range(4)]).astype(np.float32)
+    d32 = est.pair_distance(p32)
+    m32 = np.array([metric(p[0], p[1]) for p in p32])
+    for vname, vals in (('pair_distance(float32 points ~2^63)', d32), ('get_metric()(float32 points ~2^63)', m32)):
+        n_eval += vals.size
+        if not np.isfinite(vals).all() or (vals < 0).any():
+            k_ = int(np.argmax(~np.isfinite(vals) | (vals < 0)))
+            viol.append(V(site, 'finite', '%s is %r for pair %d' % (vname, vals[k_], k_), tr, view=vname))
+            continue
+        for k_, p in enumerate(p32):
+            u_, v_ = p[0].astype(float), p[1].astype(float)
+            r_ = exact.sqrt_float(exact.d2_exact(Lf, exact.fvec(u_), exact.fvec(v_)))
+            if abs(vals[k_] - r_) > exact.dist_tol(L, u_, v_) + 1e-300:
+                viol.append(V(site, 'value', '%s = %r, exact %r for pair %d' % (vname, vals[k_], r_, k_), tr, view=vname))
+                break
     if not np.array_equal(S, -D):
         viol.append(V(site, 'pair_score', 'pair_score is not exactly -pair_distance', tr))
     Ssingle = np.array([est.pair_score(pairs[k][None])[0] for k in range(0, nq * nq, 7)])
